@@ -43,7 +43,10 @@ P = {'id': 'C09',
              'src/containers/specialized/uint_vector.rs (calculate_run_ratio, estimate_run_length_size, compute_compressed_size, should_compress, '
              'analyze_optimal_strategy, compress_raw/min_max_bit_packed/run_length, write_bits_fast both paths, read_bits_fast, get_raw/get_min_max_bit_packed/'
              'get_run_length, get with pending values, push, quick_append, recompress_all, build_from); UintVecMin0::build_from_u32/build_from_i32 on top of the modelled new/set',
-             'spec-only cells (direct oracle, no mechanism model): none',
+             'spec-only cells (direct oracle, no mechanism model): ZipIntVec/history (operation histories over all 17 public entry points incl. swap, clone, resize_with_range, shrink_to_fit, static fast_get), '
+             'UintVector/build_from+push; oracle-only operations inside M+S cells (a case that contains one is not sent to the model): UintVecMin0 get2, back, shrink_to_fit, resize_with_uintbits, '
+             'resize_with_wire_max_val, static fast_get, build_from_u32/i32 as the start of a history, Default; SortedUintVec builder extend / new / default / with_pool / reuse after a refusal, '
+             'to_bytes + from_bytes, get_block into larger and shorter buffers; UintVector with_capacity / Default; IntVec Clone / new / Default; the (container, kind, n, seed) inputs of 2^16 and 2^20 elements',
              'not modelled: the byte-wise slow path of set_uint_bits (reachable only for widths > 58, which is the recorded finding); '
              'src/containers/specialized/int_vec/int_vec_simd.rs is not compiled into the crate (int_vec.rs declares an inline module of the same name), so nothing of it can run; '
              'IntVec functions no constructor reaches (compress_with_bulk_strategy and its non-SIMD bulk writers, compress_with_fast_strategy, analyze_bulk_fast_strategy, '
